@@ -255,7 +255,7 @@ def backend_init(case):
     def havoc(ns):
         d = GDict("vd")
         box["d"] = d
-        interp().setattr(ns.self, "variables_dict", d)
+        replace_object(ns, attr(ns.self, "variables_dict"), d)      # local aliases of the table included
 
     def inv(ns):
         d = box.get("d")
